@@ -293,9 +293,16 @@ func replay(cf *evid.CaseFile) error {
 // KiB, several of them written in one batch).
 func bigBitmaps(t *testing.T, n int) {
 	spec := gen.DataSpec{Recipe: &gen.Recipe{N: n, Cols: []gen.ColSpec{
-		{Name: "a", Kind: gen.KMod, K: 3, Prefix: "v"}, {Name: "b", Kind: gen.KTwo, K: 5}}}}
+		{Name: "a", Kind: gen.KMod, K: 3, Prefix: "v"}, {Name: "b", Kind: gen.KTwo, K: 5}, {Name: "c", Kind: gen.KMod, K: 7, Prefix: "w"}}}}
 	a0, a1 := model.Eq("a", "v0"), model.Eq("a", "v1")
-	run(t, &Case{Data: spec, Probes: true, Exprs: []model.Expr{model.And(a0, a1), model.Or(a0, a1), model.Not(a0), model.And(model.Not(a1), model.Eq("b", "3"))}})
+	exprs := []model.Expr{model.And(a0, a1), model.Or(a0, a1), model.Not(a0), model.And(model.Not(a1), model.Eq("b", "3"))}
+	for i := 0; i < 7; i++ {
+		for j := i + 1; j < 7; j++ {
+			// pairwise disjoint values: any two of them sharing stored bytes shows here
+			exprs = append(exprs, model.And(model.Eq("c", fmt.Sprintf("w%d", i)), model.Eq("c", fmt.Sprintf("w%d", j))))
+		}
+	}
+	run(t, &Case{Data: spec, Probes: true, Exprs: exprs})
 }
 
 func TestQuick(t *testing.T) {
